@@ -253,6 +253,52 @@ pub fn run(rng: &mut Rng, n: usize, rep: &mut Report) {
                 }
             }
         }
+        // ---------------------------------------------------------------- role assignment (marginfi_group_configure)
+        // keys drawn from a small pool so that several roles often receive the SAME key, the current holder, or a key
+        // another role holds; after a successful configure every role must be exactly the key that was named for it, and
+        // the risk-admin-only instruction must follow the new assignment
+        for _ in 0..6 {
+            let mut w2 = s.w.clone();
+            let g0 = w2.group(&s.group);
+            let fresh: Vec<Pubkey> = (0..3).map(|_| w2.add_wallet(1_000_000_000)).collect();
+            let pool = [g0.admin, g0.risk_admin, g0.metadata_admin, g0.emode_admin, fresh[0], fresh[1], fresh[2]];
+            let pick = |rng: &mut Rng| *rng.pick(&pool);
+            let want = [g0.admin, pick(rng), pick(rng), pick(rng), pick(rng), pick(rng), pick(rng)];
+            let r = w2.exec(&ix::group_configure(s.group, g0.admin, want[0], want[1], want[2], want[3], want[4], want[5], want[6], None, None));
+            cells += 1;
+            rep.bump("cases");
+            rep.bump("role_assign_cells");
+            if r.is_err() {
+                rep.bump("role_assign_refused");
+                continue;
+            }
+            let g1 = w2.group(&s.group);
+            let got = [g1.admin, g1.emode_admin, g1.delegate_curve_admin, g1.delegate_limit_admin, g1.delegate_emissions_admin, g1.metadata_admin, g1.risk_admin];
+            let names = ["admin", "emode_admin", "curve_admin", "limit_admin", "emissions_admin", "metadata_admin", "risk_admin"];
+            for i in 0..7 {
+                if got[i] != want[i] {
+                    rep.fail(format!(
+                        "role-assignment: marginfi_group_configure succeeded but {} is {} instead of the key named for it ({}); requested {:?}, previous roles {:?}",
+                        names[i], got[i], want[i], want, [g0.admin, g0.emode_admin, g0.delegate_curve_admin, g0.delegate_limit_admin, g0.delegate_emissions_admin, g0.metadata_admin, g0.risk_admin]
+                    ));
+                }
+            }
+            // the risk-admin-only instruction follows the assignment that was asked for
+            for (signer, should) in [(want[6], true), (g0.risk_admin, g0.risk_admin == want[6])] {
+                let mut w3 = w2.clone();
+                if w3.get(&signer).is_none() {
+                    continue;
+                }
+                let r = w3.exec(&ix::force_tokenless_repay_complete(&b0, signer));
+                let refused = matches!(r.as_ref().err().and_then(|e| e.code()), Some(6042));
+                if should && refused {
+                    rep.fail(format!("role-assignment: the key named risk admin by a successful configure is refused by a risk-admin-only instruction"));
+                }
+                if !should && !refused {
+                    rep.fail(format!("role-assignment: a rotated-out risk admin is still accepted by a risk-admin-only instruction after a successful configure"));
+                }
+            }
+        }
         rep.sample(format!("auth matrix on a world with {} banks", s.banks.len()));
     }
 }
